@@ -372,6 +372,15 @@ def solve_affine_equations_for(unknowns, equations):
         parameters.update(dep_map(lhs) - unknowns_set)
         parameters.update(dep_map(rhs) - unknowns_set)
 
+    # A subscript, call or lookup is a parameter like any other, unless an
+    # unknown occurs inside it: then the equation is not affine in the unknowns.
+    inner_dep_map = DependencyMapper(composite_leaves=False)
+    for param in parameters:
+        if inner_dep_map(param) & unknowns_set:
+            raise RuntimeError(
+                    f"equations are not affine in the unknowns: '{param}' "
+                    "depends on one of them")
+
     parameters_list = list(parameters)
     parameter_idx_lut = {var_name: idx
             for idx, var_name in enumerate(parameters_list)}
